@@ -87,7 +87,7 @@ def check(ctx):
     ctx.ob("PAIR.one-state.choice", rc, "one state per block; replace and p forwarded positionally", ok)
     for fn, sig in (("_choice_rng", "state.choice(a, size=size, replace=replace, p=p, axis=axis, shuffle=shuffle)"), ("_choice_rs", "state.choice(a, size=size, replace=replace, p=p)")):
         f = mod.func(fn)
-        ok = any(Pat(sig).match(r.value) is not None for r in returns(f))
+        ok = (all(Pat(sig).match(r.value) is not None for r in returns(f)) and bool(returns(f)))
         ctx.ob("DELEG.choice", f, f"{fn} -> {sig}", ok, "" if ok else "choice parameters (replace!) are not forwarded by name")
     # ---------------- per-chunk functions: effect discipline
     n_sites = 0
